@@ -16,7 +16,7 @@ if os.path.exists(f"{V}/sensitivity_mutants.txt"):
         m = re.match(r"(\S+)\.diff: exit=(\d+) violations=(\d+)", line)
         if m:
             name, rc, nv = m.group(1), int(m.group(2)), int(m.group(3))
-            rows.append((name.split("-")[0], "mutant", name, "caught (%d shards)" % nv if rc == 1 else ("NOT caught" if rc == 0 else "inconclusive")))
+            rows.append((name.split("-")[0], "mutant", name, "caught (%d failing shards or tests)" % nv if rc == 1 else ("NOT caught" if rc == 0 else "inconclusive")))
 for p in sorted(glob.glob(f"{V}/seeded/*/meta.json")):
     m = json.load(open(p))
     cr = m["check_result"]
